@@ -155,6 +155,7 @@ def oracle_ops(a, b):
 
 
 OPS = ['==', '!=', '<', '>', '<=', '>=']
+OPNAMES = ['eq', 'ne', 'lt', 'gt', 'le', 'ge']
 
 
 def show(b):
@@ -174,6 +175,8 @@ def gen_strings(ctx, maxlen, nrandom):
         seen.add(b)
         out.append(b)
         ctx.count('strings_' + kind)
+    for b in NAMED:
+        add(b, 'named')
     for n in range(0, maxlen + 1):
         for t in itertools.product(ALPHABET, repeat=n):
             add(''.join(t).encode(), 'exhaustive_len<=%d' % maxlen)
@@ -251,14 +254,33 @@ def gen_pairs(ctx, n):
     return pairs
 
 
+NAMED = (b'5.3', b'007.0003', b'255.65534', b'255.65535', b'5', b'5x3', b' 5.3', b'+5.3', b'5.3 ')
+
+
+def rng_small(ctx):
+    return ctx.rng.random() < 0.5
+
+
 # ---- judging -------------------------------------------------------------------------------------------
+_sig_seen = {}
+
+
+def first_of(sig, limit=1):
+    """True for the first `limit` occurrences of a signature (fv.finish prints one per signature anyway)."""
+    _sig_seen[sig] = _sig_seen.get(sig, 0) + 1
+    return _sig_seen[sig] <= limit
+
+
 def judge_parse(ctx, exe, b, impl, model, via='FromString(const char*)'):
     replay = {'kind': 'parse', 'hex': b.hex(), 'text': show(b)}
     want = oracle_parse(b)
     if model is not None and impl != model:
         ctx.disagree('%s(%s): compiled code %s, model %s' % (via, show(b), impl, model), replay)
     if impl == 'fault':
-        rep = sanitizer_report(exe, 'p ' + (b.hex() or '-'))
+        ctx.count('violations_reads-outside-the-string')
+        if not first_of('fault'):
+            return
+        rep = sanitizer_report(exe, ('p ' if 'char' in via else 's ') + (b.hex() or '-'))
         ctx.violation('C20/FromString/reads-outside-the-string',
                       '%s on %s (in a %d-byte heap block) -> sanitizer report: %s'
                       % (via, show(b), len(b) + 1, ' | '.join(rep[:4])), dict(replay, sanitizer=rep))
@@ -269,7 +291,9 @@ def judge_parse(ctx, exe, b, impl, model, via='FromString(const char*)'):
             sig = 'C20/FromString/grammar-text-rejected'
         else:
             sig = 'C20/FromString/wrong-value'
-        ctx.violation(sig, '%s(%s) = %s, the grammar "<0-255>.<0-65535>" gives %s' % (via, show(b), impl, want), replay)
+        ctx.count('violations_' + sig.split('/')[-1])
+        if first_of(sig, 5):
+            ctx.violation(sig, '%s(%s) = %s, the grammar "<0-255>.<0-65535>" gives %s' % (via, show(b), impl, want), replay)
 
 
 def run(ctx, deep):
@@ -290,14 +314,34 @@ def run(ctx, deep):
         ctx.cov['traces_validated_against_impl'] += 1
         if i != m or i != oracle_parse(b):
             judge_parse(ctx, exe, b, i, m)
-            if len(ctx.violations) > 200:
-                break
     for b, i in zip(sample, impl[len(strings):]):
         ctx.count('parse_via_std_string')
         if i != oracle_parse(b):
             judge_parse(ctx, exe, b, i, None, via='FromString(std::string)')
-    for b in (b'5.3', b'007.0003', b'255.65534', b'5', b'5x3', b' 5.3'):
-        ctx.sample({'text': show(b), 'FromString': impl[strings.index(b)] if b in strings else None})
+    for b in NAMED:
+        ctx.sample({'text': show(b), 'FromString': impl[strings.index(b)]})
+
+    # ---- strtol itself, and FromString as it was before the fix (kept verbatim in the harness), against their models:
+    #      this is what ties the model of strtol's blank/sign/clamp/stop behaviour and of the memory layout to libc ----
+    old = [b for b in strings if len(b) <= 3 or b'\t' in b or len(b) > 16][:9000] + list(NAMED)
+    hl = ['q ' + (b.hex() or '-') for b in old]
+    ml = ['dvparse0 ' + (b.hex() or '-') for b in old]
+    tl = []
+    for b in strings[:40000:3] + strings[40000:]:
+        st = 0 if rng_small(ctx) else ctx.rng.randrange(len(b) + 1)
+        tl.append((b, st))
+    hl += ['t %s %d' % (b.hex() or '-', st) for b, st in tl]
+    ml += ['dvstrtol %s %d' % (b.hex() or '-', st) for b, st in tl]
+    impl, _ = run_harness(exe, hl)
+    model = ctx.driver(ml)
+    for k, (i, m) in enumerate(zip(impl, model)):
+        ctx.cov['traces_validated_against_impl'] += 1
+        if k < len(old):
+            ctx.count('before_fix_function_' + i.split(' ')[0])
+        else:
+            ctx.count('strtol_calls')
+        if i != m:
+            ctx.disagree('%s: compiled code %s, model %s' % (hl[k], i, m), {'kind': 'raw', 'harness': hl[k], 'driver': ml[k]})
 
     # ---- formatting and the round trip, version by version (concrete replays) ----
     versions = gen_versions(ctx, 20000 if deep else 3000)
@@ -365,11 +409,11 @@ def run(ctx, deep):
         if i == 'fault':
             ctx.violation('C20/round-trip/reads-outside-the-string', 'sanitizer report inside box %s' % (bx,), replay)
         elif len(parts) != 4 or parts[0] != str(n) or parts[1] != '0':
+            nbad = parts[1] if len(parts) > 1 else '?'
+            first = parts[3] if len(parts) > 3 else None
             ctx.violation('C20/round-trip/version-changed',
-                          'majors %d-%d minors %d-%d: %s of %s versions do not survive ToString/FromString, first %s'
-                          % (bx + (parts[1:2] or ['?'])[0:1][0:1].__class__((parts[1] if len(parts) > 1 else '?',
-                                                                             parts[0], parts[3] if len(parts) > 3 else '?'))),
-                          dict(replay, first=parts[3] if len(parts) > 3 else None))
+                          'majors %d-%d minors %d-%d: %s of %d versions do not survive ToString/FromString, first %s'
+                          % (bx + (nbad, n, first)), dict(replay, first=first))
 
     # ---- operators ----
     pairs = gen_pairs(ctx, 20000 if deep else 3000)
@@ -384,10 +428,11 @@ def run(ctx, deep):
             ctx.disagree('operators on %s, %s: compiled code %s, model %s' % (a, b, i, mo), replay)
         want = oracle_ops(a, b)
         if i != want:
-            bad = [OPS[k] for k in range(6) if k >= len(i) or i[k] != want[k]] if len(i) == 6 else ['?']
-            ctx.violation('C20/operator' + bad[0] + '/not-lexicographic',
-                          '%d.%d %s %d.%d: got [== != < > <= >=] = %s, (major, minor) order gives %s'
-                          % (a + (','.join(bad),) + b + (i, want)), replay)
+            badk = [k for k in range(6) if i[k] != want[k]] if len(i) == 6 else []
+            sig = 'C20/operator-%s/not-lexicographic' % (OPNAMES[badk[0]] if badk else 'any')
+            if first_of(sig, 5):
+                ctx.violation(sig, '%d.%d {%s} %d.%d: got [== != < > <= >=] = %s, the (major, minor) order gives %s'
+                              % (a + (' '.join(OPS[k] for k in badk),) + b + (i, want)), replay)
     ctx.sample({'compare': '1.65535 vs 2.0', '== != < > <= >=': oracle_ops((1, 65535), (2, 0))})
 
 
@@ -459,6 +504,12 @@ def replay(ctx, path):
             ctx.disagree('operators on %s, %s: %s vs %s' % (a, b, impl[0], model[0]), r)
         if impl[0] != oracle_ops(a, b):
             ctx.violation('C20/operator/not-lexicographic', 'got %s, want %s' % (impl[0], oracle_ops(a, b)), r)
+    elif kind == 'raw':
+        impl, _ = run_harness(exe, [r['harness']])
+        model = ctx.driver([r['driver']])
+        print('%s: compiled code %s, model %s' % (r['harness'], impl[0], model[0]))
+        if impl[0] != model[0]:
+            ctx.disagree('%s: %s vs %s' % (r['harness'], impl[0], model[0]), r)
     else:
         raise fv.InfraError('replay file without a known input kind (this is a no-failing-input record)')
     return fv.finish(ctx, 'proof', None)
